@@ -255,27 +255,39 @@ theorem summary_spec (env : Env) (st : St) (obj : Obj) :
       | some s => exact .inl (hsrc s rfl)
     · intro h; cases h
 
-/-- `format_toc` raises exactly when `get_toc` does -/
+/-- `format_toc` returns whatever `get_toc` does (c422501: `try … except Exception: toc = None`) -/
 theorem toc_spec (env : Env) (st : St) (obj : Obj) :
     Frame obj (sourceOf env st obj) st (formatToc env st obj).2 ∧
-    ((formatToc env st obj).1.isOk = false ↔
-      ∃ pd, ((ensureParsed env st obj).2.objs obj).parsed = some pd ∧ env.tocDepth > 0 ∧
-        (getToc env pd env.tocDepth).isOk = false) := by
+    (formatToc env st obj).1.isOk = true := by
   have hf := frame_ensureParsed env st obj
   simp only [formatToc]
   split
-  · rename_i hnone; exact ⟨hf, by simp [Res.isOk, hnone]⟩
+  · exact ⟨hf, rfl⟩
+  · split
+    · split
+      · exact ⟨hf, rfl⟩
+      · exact ⟨hf, rfl⟩
+      · refine ⟨Frame.trans hf ?_, rfl⟩
+        unfold safeToStan
+        exact frame_safeToStanOut _ _ _ _ _ _ _ _ (.inr rfl) (fun h => by cases h)
+    · exact ⟨hf, rfl⟩
+
+/-- HISTORICAL (before c422501): the old `format_toc` raised exactly when `get_toc` did -/
+theorem toc_old_spec (env : Env) (st : St) (obj : Obj) :
+    ((formatTocOld env st obj).1.isOk = false ↔
+      ∃ pd, ((ensureParsed env st obj).2.objs obj).parsed = some pd ∧ env.tocDepth > 0 ∧
+        (getToc env pd env.tocDepth).isOk = false) := by
+  simp only [formatTocOld]
+  split
+  · rename_i hnone; simp [Res.isOk, hnone]
   · rename_i pd hpd
     split
     · rename_i hd
       split
-      · rename_i e he; exact ⟨hf, by simp [Res.isOk, hpd, hd, he]⟩
-      · rename_i he; exact ⟨hf, by simp [Res.isOk, hpd, he]⟩
-      · rename_i toc he
-        refine ⟨Frame.trans hf ?_, by simp [Res.isOk, hpd, he]⟩
-        unfold safeToStan
-        exact frame_safeToStanOut _ _ _ _ _ _ _ _ (.inr rfl) (fun h => by cases h)
-    · rename_i hd; exact ⟨hf, by simp [Res.isOk, hpd]; omega⟩
+      · rename_i e he; simp [Res.isOk, hpd, hd, he]
+      · rename_i he; simp [Res.isOk, hpd, he]
+      · rename_i toc he; simp [Res.isOk, hpd, he]
+    · rename_i hd; simp [Res.isOk, hpd]; omega
 
 theorem extract_spec (env : Env) (st : St) (obj : Obj) :
     Frame obj obj st (extractFields env st obj).2 ∧
@@ -312,58 +324,19 @@ theorem extract_total (env : Env) (st : St) (obj : Obj) (h : (st.objs obj).docst
     (extractFields env st obj).1.isOk = true :=
   (extract_spec env st obj).2 h
 
-/-- hypothesis of the partial statement: nothing on the `get_toc` path raises, except `to_node`
-raising `NotImplementedError` (the one case the code handles) -/
-def TocSafe (env : Env) : Prop :=
-  (∀ k e, env.toNode k = .raises e → e = .notImplemented) ∧
-  (∀ t e, env.plainToNode t = .raises e → e = .notImplemented) ∧
-  (∀ pd d e, env.buildToc pd d ≠ .raises e)
+theorem toc_total (env : Env) (st : St) (obj : Obj) : (formatToc env st obj).1.isOk = true :=
+  (toc_spec env st obj).2
 
-theorem getToc_ok_of_tocSafe (env : Env) (h : TocSafe env) (pd : PD) (d : Nat) :
-    (getToc env pd d).isOk = true := by
-  obtain ⟨h1, h2, h3⟩ := h
-  unfold getToc
-  split
-  · rename_i e he
-    have : e = .notImplemented := by
-      cases pd with
-      | plain t => exact h2 t e he
-      | stanOnly s => simp [pdToNode] at he; exact he.symm
-      | user k fs => exact h1 k e he
-    simp [this, Res.isOk]
-  · split
-    · rename_i e he; exact absurd he (h3 _ _ _)
-    · rfl
-    · rfl
-
-/-
-Full statement — FALSE of the current code (`get_toc` is called outside `safe_to_stan`, and
-`get_toc` handles only `NotImplementedError` from `to_node`):
-
-  theorem toc_total (env : Env) (st : St) (obj : Obj) : (formatToc env st obj).1.isOk = true
-  theorem total (env : Env) (st : St) (op : Op) (obj : Obj)
-      (h : op = .extract → (st.objs obj).docstring ≠ none) : (step env st op obj).1.isOk = true
-
-see `total_counterexample`.
--/
-
-theorem toc_total_partial (env : Env) (h : TocSafe env) (st : St) (obj : Obj) :
-    (formatToc env st obj).1.isOk = true := by
-  cases hr : (formatToc env st obj).1.isOk with
-  | true => rfl
-  | false =>
-    obtain ⟨pd, _, _, hbad⟩ := ((toc_spec env st obj).2).mp hr
-    rw [getToc_ok_of_tocSafe env h] at hbad
-    cases hbad
-
-/-- all five entry points return, for every behaviour of parser / processtypes / to_stan /
-summary walk and every docstring, provided the `get_toc` path does not raise -/
-theorem total_partial (env : Env) (h : TocSafe env) (st : St) (op : Op) (obj : Obj)
+/-- `Docstring.total`: every entry point returns — for EVERY behaviour of the parser, the
+processtypes step, `to_stan`, `to_node`, the summary walk and the toc builder, every state, every
+object and every docstring (`extract_fields` under its documented precondition that the object
+has a docstring).  No hypothesis on the parameters. -/
+theorem total (env : Env) (st : St) (op : Op) (obj : Obj)
     (hx : op = .extract → (st.objs obj).docstring ≠ none) : (step env st op obj).1.isOk = true := by
   cases op <;> simp only [step, Out.isOk]
   · exact doc_total env st obj
   · exact summary_total env st obj
-  · exact toc_total_partial env h st obj
+  · exact toc_total env st obj
   · exact extract_total env st obj (hx rfl)
 
 /-- witness environment: an epytext-like parser that succeeds, and a `to_node` that raises ValueError -/
@@ -385,15 +358,17 @@ def envCx : Env where
 
 def stCx : St := ⟨fun _ => ⟨some ['x'], none, none⟩, [], [], false⟩
 
-/-- `TocSafe` cannot be dropped: `format_toc` lets the `ValueError` of `to_node` through,
-while the other entry points on the same object still return -/
-theorem total_counterexample :
-    (formatToc envCx stCx 0).1.isOk = false ∧ (formatDocstring envCx stCx 0).1.isOk = true ∧
-    (formatSummary envCx stCx 0).1.isOk = true := by
-  refine ⟨by decide, by decide, by decide⟩
+/-- the situation that used to abort (`to_node` raises ValueError) now yields "no table of contents" -/
+example : (formatToc envCx stCx 0).1.isOk = true ∧ (formatDocstring envCx stCx 0).1.isOk = true := by
+  refine ⟨by decide, by decide⟩
 
-example : TocSafe { envCx with toNode := fun _ => .raises .notImplemented } :=
-  ⟨fun _ _ h => by simp at h; exact h.symm, fun _ _ h => by simp [envCx] at h, fun _ _ _ h => by simp [envCx] at h⟩
+/-- HISTORICAL counterexample (code before c422501, `formatTocOld`): `get_toc` was called outside
+`safe_to_stan` and handles only `NotImplementedError`, so the `ValueError` of `to_node` came out of
+`format_toc` while the other entry points on the same object returned.  This is why `total` was
+only provable under a `TocSafe` hypothesis before the fix. -/
+theorem total_old_counterexample :
+    (formatTocOld envCx stCx 0).1.isOk = false ∧ (formatToc envCx stCx 0).1.isOk = true := by
+  refine ⟨by decide, by decide⟩
 
 /-! ## C08 theorems: fallback shows the full text, and the object is reported -/
 
